@@ -24,6 +24,8 @@ def random_case(rng, max_states=3, max_trans=6, vcs=None, allow_eps_out=False):
         c["perm"] = rng.sample(range(4), 4)
     if rng.random() < 0.5:
         c["shuffle"] = rng.randrange(1 << 30)
+    if rng.random() < 0.15:
+        c["form"] = "bulk"
     return c
 
 
@@ -67,6 +69,10 @@ def build(c):
         random.Random(c["shuffle"]).shuffle(tr)
     ins = c.get("ins") or INS
     outs = c.get("outs") or OUTS
+    if c.get("form") == "bulk":
+        f.add_transitions([(sval(c, p), "epsilon" if a < 0 else ins[a], sval(c, q), [outs[o] for o in out])
+                           for p, a, q, out in tr])
+        tr = []
     for p, a, q, out in tr:
         f.add_transition(sval(c, p), "epsilon" if a < 0 else ins[a], sval(c, q), [outs[o] for o in out])
     for s in c["starts"]:
